@@ -52,8 +52,20 @@ func main() {
 	listFuncs := flag.Bool("listfuncs", false, "print the names of all functions of the tree (to regenerate baseline_funcs.txt)")
 	overlayArg := flag.String("overlay", "", "relpath=file: analyse the tree with this file's content in place of relpath (in memory)")
 	patchFile := flag.String("patch", "", "analyse the tree as if this unified diff (paths relative to the tree root, -p1) were applied (in memory, via an overlay; the tree itself is not touched)")
+	genMut := flag.String("genmutants", "", "debug: write the sweep's mutants of -prop into this directory (index.txt lists them)")
 	flag.Parse()
 	start := time.Now()
+	if *genMut != "" {
+		os.MkdirAll(*genMut, 0o755)
+		var idx strings.Builder
+		for i, m := range genMutants(*repo, anchorFiles(*verif, *prop), anchorRanges(*verif, *prop), 250, 0) {
+			name := fmt.Sprintf("m%03d.go", i)
+			os.WriteFile(filepath.Join(*genMut, name), m.src, 0o644)
+			fmt.Fprintf(&idx, "%s\t%s\t%s\n", name, m.file, m.desc)
+		}
+		os.WriteFile(filepath.Join(*genMut, "index.txt"), []byte(idx.String()), 0o644)
+		return
+	}
 	if t := os.Getenv("VERIF_TIER"); t != "" && *tier == "" {
 		*tier = t
 	}
